@@ -1,8 +1,22 @@
 mod chacha;
+mod guts;
 mod util;
 
 fn arg<'a>(args: &'a [String], name: &str) -> Option<&'a str> {
     args.iter().position(|a| a == name).and_then(|i| args.get(i + 1)).map(|s| s.as_str())
+}
+
+/// H1: force the ppv-lite86 backend chosen by the std arms of the dispatch macros (0 = run-time detection).
+#[cfg(all(cryptocorrosion_verif, feature = "std", not(feature = "nosimd")))]
+pub fn force_backend(level: u8) {
+    ppv_lite86::x86_64::verif::force(level);
+}
+#[cfg(not(all(cryptocorrosion_verif, feature = "std", not(feature = "nosimd"))))]
+pub fn force_backend(level: u8) {
+    if level != 0 {
+        eprintln!("backend override not available in this build");
+        std::process::exit(2);
+    }
 }
 
 fn main() {
@@ -14,10 +28,15 @@ fn main() {
     util::quiet_panics();
     let seed: u64 = arg(&args, "--seed").map(|s| s.parse().expect("seed")).unwrap_or(1);
     let thorough = arg(&args, "--tier") == Some("thorough");
+    if let Some(f) = arg(&args, "--force") {
+        force_backend(f.parse().expect("force level"));
+    }
     let mut out = util::open_out(arg(&args, "--out"));
     match args[1].as_str() {
         "c01" => chacha::drive_c01(&mut *out, seed, thorough),
         "stream-script" => chacha::run_script(&mut *out, arg(&args, "--script").expect("--script"), seed, true),
+        "c14" => guts::drive_c14(&mut *out, seed, thorough),
+        "c15" => guts::drive_c15(&mut *out, seed, thorough),
         "stream-end64" => chacha::drive_end64(&mut *out, seed, thorough),
         "stream-rand" => chacha::drive_histories(&mut *out, seed, thorough, true),
         d => {
